@@ -745,7 +745,7 @@ def concretise(x, m):
         return z3.is_true(m.eval(x.t, model_completion=True))
     if isinstance(x, SymInt):
         return m.eval(x.t, model_completion=True).as_long()
-    if isinstance(x, (SymBytes, SymStr, SymEnum)):
+    if isinstance(x, (SymBytes, SymStr, SymEnum, SymReal)):
         return x.model(m)
     if isinstance(x, builtins.list):
         return [concretise(y, m) for y in x]
@@ -763,7 +763,7 @@ def concretise(x, m):
 
 
 def is_symbolic(x):
-    return isinstance(x, (SymBool, SymInt, SymBytes, SymStr, SymEnum))
+    return isinstance(x, (SymBool, SymInt, SymBytes, SymStr, SymEnum, SymReal))
 
 
 def _list_eq(a, b):
@@ -840,3 +840,92 @@ class HexView:
 
 _SHADOW_TYPES[sym_str] = builtins.str
 _SHADOW_TYPES[sym_int] = builtins.int
+
+
+# ---------------------------------------------------------------- reals (symbolic time)
+def zreal(x):
+    if isinstance(x, SymReal):
+        return x.t
+    if isinstance(x, (builtins.int, builtins.float)) and not isinstance(x, bool):
+        return z3.RealVal(repr(x)) if isinstance(x, builtins.float) else z3.RealVal(x)
+    if isinstance(x, SymInt):
+        return z3.ToReal(x.t)
+    if z3.is_expr(x):
+        return x
+    raise Escape("zreal(%r)" % (x,))
+
+
+class SymReal:
+    __slots__ = ("t",)
+
+    def __init__(self, t):
+        self.t = t
+
+    def __add__(self, o):
+        return SymReal(self.t + zreal(o))
+
+    __radd__ = __add__
+
+    def __sub__(self, o):
+        return SymReal(self.t - zreal(o))
+
+    def __rsub__(self, o):
+        return SymReal(zreal(o) - self.t)
+
+    def __mul__(self, o):
+        if isinstance(o, (builtins.int, builtins.float)):
+            return SymReal(self.t * zreal(o))
+        raise Escape("SymReal * symbolic")
+
+    __rmul__ = __mul__
+
+    def __neg__(self):
+        return SymReal(-self.t)
+
+    def __le__(self, o):
+        return SymBool(self.t <= zreal(o))
+
+    def __lt__(self, o):
+        return SymBool(self.t < zreal(o))
+
+    def __ge__(self, o):
+        return SymBool(self.t >= zreal(o))
+
+    def __gt__(self, o):
+        return SymBool(self.t > zreal(o))
+
+    def __eq__(self, o):
+        if isinstance(o, (SymReal, builtins.int, builtins.float)):
+            return SymBool(self.t == zreal(o))
+        return False
+
+    def __ne__(self, o):
+        return sym_not(self.__eq__(o))
+
+    def __hash__(self):
+        raise Escape("hash(SymReal)")
+
+    def __float__(self):
+        raise Escape("float(SymReal)")
+
+    def __repr__(self):
+        return "<SymReal>"
+
+    def __format__(self, spec):
+        return "<SymReal>"
+
+    def model(self, m):
+        v = m.eval(self.t, model_completion=True)
+        try:
+            return float(v.as_fraction())
+        except Exception:
+            return float(v.as_decimal(12).rstrip("?"))
+
+
+def fresh_real(name, lo=None, lo_strict=False):
+    e = E()
+    v = z3.Real(e.fresh_name(name))
+    if lo is not None:
+        e.solver.add(v > lo if lo_strict else v >= lo)
+        e.model = None
+    return SymReal(v)
